@@ -505,6 +505,9 @@ func convMapToTarget(source interface{}, target reflect.Type) (interface{}, erro
 }
 
 func convArrayTypeToTarget(source interface{}, target reflect.Type) (interface{}, error) {
+	if source == nil {
+		return nil, nil
+	}
 	sourceValue := reflect.ValueOf(source)
 	if sourceValue.Type() == nil || (sourceValue.Type().Kind() != reflect.Array && sourceValue.Type().Kind() != reflect.Slice) {
 		return nil, fmt.Errorf("can't conv type %T to array", source)
@@ -515,7 +518,11 @@ func convArrayTypeToTarget(source interface{}, target reflect.Type) (interface{}
 		if err != nil {
 			return nil, err
 		}
-		sliceValue = reflect.Append(sliceValue, reflect.ValueOf(evalue))
+		if evalue == nil {
+			sliceValue = reflect.Append(sliceValue, reflect.Zero(target.Elem()))
+		} else {
+			sliceValue = reflect.Append(sliceValue, reflect.ValueOf(evalue))
+		}
 	}
 	return sliceValue.Interface(), nil
 }
